@@ -8,6 +8,7 @@ import MosaikProofs.Sched.Deadlock
 import MosaikProofs.Sched.WF
 import MosaikProofs.Sched.Buffer
 import MosaikProofs.Sched.Cached
+import MosaikProofs.Sched.PushRef
 namespace Mosaik
 
 theorem Cfg.sim_of_ge {cfg : Cfg} {p : Sid} (h : cfg.n ≤ p) : cfg.sim p = {} := by
@@ -97,5 +98,29 @@ theorem deadlock_free_of_checks {cfg : Cfg} (h1 : cfg.wfB = true) (h2 : cfg.shap
 theorem bufOk_of_checks {cfg : Cfg} (h1 : cfg.wfB = true) (h2 : cfg.shapeB = true) (h3 : cfg.flatB cfg.zeroRank = true)
     (h4 : cfg.pushB = true) {s : State} (hr : Reach cfg s) (hnf : s.failed = none) : ∀ q, q < cfg.n → BufOk s q :=
   reach_bufOk (wfB_sound h1) (shapeB_sound h2) (flatB_sound h3) (pushB_sound h4) hr hnf
+
+/-- the executable check gives the two connection hypotheses of the push-path refinement, for every pushed connection -/
+theorem pushKeysB_sound {cfg : Cfg} (h : cfg.pushKeysB = true) {p : Sid} (hp : p < cfg.n) :
+    (cfg.sim p).pulled = [] ∧
+    ∀ pe ∈ (cfg.sim p).push, (cfg.sim p).push.filter (hits pe.2.1 (keyOf p pe) p) = [pe] := by
+  simp only [Cfg.pushKeysB, List.all_eq_true, List.mem_range] at h
+  have := h p hp
+  simp only [Cfg.pushKeysSim, Bool.and_eq_true, List.all_eq_true, List.isEmpty_iff] at this
+  refine ⟨this.1, fun pe hpe => ?_⟩
+  have hf := this.2 pe hpe
+  simp only [beq_iff_eq] at hf
+  rw [← hf]
+  apply List.filter_congr
+  intro e _
+  simp only [hits, keyOf]
+  have : ((({ eid := e.2.2.2.1, attr := e.2.2.2.2, ssid := p, seid := e.1.1 } : InKey) ==
+      ({ eid := pe.2.2.2.1, attr := pe.2.2.2.2, ssid := p, seid := pe.1.1 } : InKey))) =
+      (e.2.2.2.1 == pe.2.2.2.1 && e.2.2.2.2 == pe.2.2.2.2 && e.1.1 == pe.1.1) := by
+    rw [Bool.eq_iff_iff]
+    simp only [beq_iff_eq, Bool.and_eq_true, InKey.mk.injEq]
+    constructor
+    · intro hh; exact ⟨⟨hh.1, hh.2.1⟩, hh.2.2.2⟩
+    · intro hh; exact ⟨hh.1.1, hh.1.2, trivial, hh.2⟩
+  rw [this]
 
 end Mosaik
